@@ -24,8 +24,8 @@ Definition ops_flat : list op :=
 (** ... then two layers, the name lists set up *)
 Definition ops_layers : list op :=
   [AddLayer l0 0%Q 0%Q 0%Q; AddLayer l1 (-1)%Q (-1 # 2)%Q 0%Q; SetNumLayers na; SetNumLayers nb; SetupBlockNames; SetupConnNames].
-Definition g_flat : geo := result (run (empty_geo 0 2 nofix) ops_flat).
-Definition g_two : geo := result (run g_flat ops_layers).
+Definition g_flat : geo := Eval vm_compute in result (run (empty_geo 0 2 nofix) ops_flat).
+Definition g_two : geo := Eval vm_compute in result (run g_flat ops_layers).
 
 Ltac one_step :=
   match goal with
@@ -60,17 +60,19 @@ Lemma g_two_invD : InvD g_two.
 Proof.
   constructor.
   - split.
-    + intros c [<-|[<-|[]]]; vm_compute; repeat constructor; cbn; intuition discriminate.
-    + intros c Hc d. destruct Hc as [<-|[<-|[]]]; split.
+    + intros c Hc; vm_compute in Hc; destruct Hc as [<-|[<-|[]]]; vm_compute; repeat constructor; cbn; intuition discriminate.
+    + intros c Hc d. vm_compute in Hc. destruct Hc as [<-|[<-|[]]]; split.
       * intro H. vm_compute in H. destruct H as [<-|[]]. exists 9%positive. vm_compute. auto.
       * intros [k [Hk M]]. vm_compute in Hk. destruct Hk as [<-|[]]. vm_compute in M. vm_compute.
         destruct M as [[_ <-]|[_ M]]; [auto|discriminate M].
       * intro H. vm_compute in H. destruct H as [<-|[]]. exists 9%positive. vm_compute. auto.
       * intros [k [Hk M]]. vm_compute in Hk. destruct Hk as [<-|[]]. vm_compute in M. vm_compute.
         destruct M as [[M _]|[<- _]]; [discriminate M|auto].
-  - intros c [<-|[<-|[]]]; vm_compute; reflexivity.
+  - intros c Hc; vm_compute in Hc; destruct Hc as [<-|[<-|[]]]; vm_compute; reflexivity.
   - split; vm_compute; reflexivity.
 Qed.
+Lemma g_two_built : run (empty_geo 0 2 nofix) (ops_flat ++ ops_layers) = Ok g_two.
+Proof. vm_compute. reflexivity. Qed.
 Lemma g_two_inv : Inv g_two.
 Proof. constructor; [exact g_two_invS|exact g_two_invD]. Qed.
 
@@ -87,7 +89,7 @@ Proof.
   - intros [_ [_ X]]. destruct (X 5%positive) with (c := 7%positive) as [Y _]; [vm_compute; auto 10|].
     destruct Y as [_ Y]; [vm_compute; auto|]. vm_compute in Y. intuition discriminate.
   - intros [_ X]. destruct (X 7%positive) with (d := 12%positive) as [_ Y]; [vm_compute; auto|].
-    assert (J : joined (result (split_column g_two na nd)) 7 12) by (exists 13%positive; vm_compute; auto).
+    assert (J : joined (result (split_column g_two na nd)) 7%positive 12%positive) by (exists 13%positive; vm_compute; auto).
     apply Y in J. vm_compute in J. exact J.
 Qed.
 (** rename_column: the connections of the renamed column stay filed under its old name *)
@@ -145,7 +147,7 @@ Definition ops_open : list op :=
   [AddNode na (P 0 0); AddNode nb (P 1 0); AddNode nc (P 2 0); AddNode nd (P 0 1); AddNode ne (P 1 1); AddNode nf (P 2 1);
    AddCol na [na; nb; ne; nd] None (Some 0%Q); AddCol nb [nb; nc; nf; ne] None (Some 0%Q);
    AddLayer l0 0%Q 0%Q 0%Q; AddLayer l1 (-1)%Q (-1 # 2)%Q 0%Q; SetNumLayers na; SetNumLayers nb; SetupBlockNames; SetupConnNames].
-Definition g_open : geo := result (run (empty_geo 0 2 nofix) ops_open).
+Definition g_open : geo := Eval vm_compute in result (run (empty_geo 0 2 nofix) ops_open).
 Lemma g_open_inv : Inv g_open.
 Proof.
   constructor.
@@ -153,10 +155,9 @@ Proof.
     cbn [all_pre ops_open preS]. repeat one_step.
   - constructor.
     + split.
-      * intros c [<-|[<-|[]]]; vm_compute; constructor.
-      * intros c Hc d. destruct Hc as [<-|[<-|[]]]; split; try (intro H; vm_compute in H; destruct H);
-          intros [k [Hk _]]; vm_compute in Hk; destruct Hk.
-    + intros c [<-|[<-|[]]]; vm_compute; reflexivity.
+      * intros c Hc; vm_compute in Hc; destruct Hc as [<-|[<-|[]]]; vm_compute; constructor.
+      * intros c Hc d. vm_compute in Hc. destruct Hc as [<-|[<-|[]]]; (split; [intro H; vm_compute in H; destruct H|intros [k [Hk _]]; vm_compute in Hk; destruct Hk]).
+    + intros c Hc; vm_compute in Hc; destruct Hc as [<-|[<-|[]]]; vm_compute; reflexivity.
     + split; vm_compute; reflexivity.
 Qed.
 Theorem add_connection_refuted :
@@ -165,14 +166,14 @@ Proof.
   exists g_open, na, nb, (result (add_connection g_open na nb)).
   split; [exact g_open_inv|]. split; [vm_compute; reflexivity|]. split.
   - intros [_ X]. destruct (X 7%positive) with (d := 8%positive) as [_ Y]; [vm_compute; auto|].
-    assert (J : joined (result (add_connection g_open na nb)) 7 8) by (exists 11%positive; vm_compute; auto).
+    assert (J : joined (result (add_connection g_open na nb)) 7%positive 8%positive) by (exists 11%positive; vm_compute; auto).
     apply Y in J. vm_compute in J. exact J.
   - intros [_ K]. vm_compute in K. discriminate K.
 Qed.
 
 (** ** the repaired source (proposed_fixes/C10-*.diff): the same calls keep the invariant *)
 Definition allfix : fixes := {| fx_rename := true; fx_split := true; fx_nbr := false |}.
-Definition g_two_fixed : geo := set_fx g_two allfix.
+Definition g_two_fixed : geo := Eval vm_compute in set_fx g_two allfix.
 Lemma g_two_fixed_inv : Inv g_two_fixed.
 Proof.
   destruct g_two_inv as [[F P1 P1k P2 P3 P4 P5] [D1 D2 D3]]. constructor; constructor; assumption.
